@@ -241,7 +241,7 @@ int main(void)
 			int oc = 0, ob = 0, ec = 0, eb = 0;
 			unsigned long long states = 0;
 			struct l1sched_ts *ts;
-			const struct l1sched_tdma_multiframe *ref;
+			const struct l1sched_tdma_multiframe *ref, *last_ok = NULL, *held;
 			const char *p;
 			sscanf(line + pos, "%lu %lu %lu %lu%n", &tn, &stride, &base, &count, &k);
 			p = line + pos + k;
@@ -251,14 +251,18 @@ int main(void)
 				p += k;
 				cfg = v;
 				rc = l1sched_configure_ts(&sched, (int)tn, (enum gsm_phys_chan_config)cfg);
+				if (rc == 0) last_ok = l1sched_mframe_layout((enum gsm_phys_chan_config)cfg, (uint8_t)tn);
 				printf("%s%d", n++ ? "," : "", rc);
 			}
 			ts = sched.ts[tn];
 			printf(" has_ts=%d", ts != NULL);
 			put_layout(ts ? ts->mf_layout : NULL);
-			ref = l1sched_mframe_layout((enum gsm_phys_chan_config)cfg, (uint8_t)tn);
-			printf(" same=%d", ts && ts->mf_layout == ref);
-			if (ts && rc == 0) {
+			/* a refused request may leave the timeslot without a layout or with the one installed before (both are fine: the statement only
+			 * speaks about layouts that ARE installed); the lookups are compared with the layout the timeslot holds */
+			held = ts ? ts->mf_layout : NULL;
+			ref = rc == 0 ? l1sched_mframe_layout((enum gsm_phys_chan_config)cfg, (uint8_t)tn) : held;
+			printf(" same=%d", rc == 0 ? (ts && ts->mf_layout == ref) : (held == NULL || held == last_ok));
+			if (ts && ref && (rc == 0 || held == last_ok)) {
 				struct l1sched_lchan_state *lchan;
 				llist_for_each_entry(lchan, &ts->lchans, list) {
 					lchan->active = 1;
@@ -267,7 +271,7 @@ int main(void)
 			}
 			printf(" states=%llx", states);
 			fflush(stdout);
-			valid = rc == 0 && ref && ref->period && ref->frames;
+			valid = ref && ref->period && ref->frames && (rc == 0 || held == last_ok);
 			for (i = 0; i < count && !bad; i++) {
 				unsigned long F = (base + i * stride) % ORC_HYPER;
 				const struct l1sched_tdma_frame *f = valid ? &ref->frames[F % ref->period] : NULL;
@@ -605,6 +609,10 @@ def run(budget_s=20.0, seed=0):
                                {k: d.get(k) for k in ("has_ts", "null", "config", "period", "slotmask", "frames_null")},
                                "the layout of combination %s for timeslot %d with period > 0 and frames" % (cfg_name.get(cfg, cfg), tn))
                         continue
+                elif d.get("same") != 1:
+                    S.fail("configure: after a refused request the timeslot holds a layout that was never installed", inp,
+                           {k: d.get(k) for k in ("has_ts", "null", "config", "period", "slotmask", "frames_null")}, "no layout, or the one installed by the last successful request")
+                    continue
                 if d.get("bad"):
                     what = d.get("what")
                     F = d.get("at")
@@ -618,7 +626,7 @@ def run(budget_s=20.0, seed=0):
                         if rc == 0:
                             exp = {"row frames[F % period] of l1sched_mframe_layout(config, tn)": {"channel": chan_name.get(d.get("ec"), d.get("ec")), "burst id": d.get("eb")}}
                         else:
-                            exp = "no handler call: l1sched_configure_ts returned %d" % rc
+                            exp = "the row of the layout the timeslot still holds, or no handler call when it holds none (l1sched_configure_ts returned %d)" % rc
                     S.fail("table: frame lookup does not deliver the row of the layout (or the channel has no state)", inp, obs, exp)
             if abort:
                 tn, st, base, cnt, cfgs = cases[abort["case"]]
